@@ -194,6 +194,16 @@ impl Session {
     pub fn is_known(&self, sig: &str) -> Option<&Known> {
         self.known.iter().find(|k| k.status == "known" && k.signature == sig)
     }
+    /// Record hits of a known finding that the check handled itself (to keep exploring past it).
+    /// Prints the KNOWN-FINDING line once, exactly like the runner does.
+    pub fn known_hit(&self, sig: &str, count: u64) {
+        let Some(k) = self.is_known(sig) else { return };
+        let mut st = self.state.lock().unwrap();
+        *st.known_hits.entry(sig.to_string()).or_insert(0) += count;
+        if st.known_printed.insert(sig.to_string()) {
+            println!("KNOWN-FINDING: property={} {} [{}]", self.id, k.what, sig);
+        }
+    }
     pub fn replaying(&self) -> bool {
         self.replay.is_some()
     }
